@@ -577,7 +577,11 @@ func enumerate(thorough bool, emit func(Spec)) map[string]int64 {
 				if li == lj {
 					continue
 				}
-				for _, sh := range shapes(2, nv2, 2) {
+				maxPer := 2
+				if !thorough {
+					maxPer = 1 // quick: 0..1 entries per stream in the label-pair product (entry lists are covered by B and C)
+				}
+				for _, sh := range shapes(2, nv2, maxPer) {
 					for _, o := range renderings(p, maxLabels(p, []int{li, lj}), false) {
 						send("small_A2_2streams_labelpairs_x_entries", Spec{Space: "small", Proto: p.Name, Opt: o, Labels: []int{li, lj}, Shape: sh})
 					}
@@ -719,8 +723,34 @@ func main() {
 		return
 	}
 
+	// enumerate into one bucket per (protocol, sub-space) and interleave the buckets, so that a run cut short by its
+	// deadline on a loaded machine loses the tail of every bucket instead of whole protocols (order is fixed)
+	buckets := map[string][]Spec{}
+	var order []string
+	sub := enumerate(r.Thorough(), func(s Spec) {
+		k := s.Proto + "/" + s.Space + fmt.Sprint(len(s.Labels))
+		if _, ok := buckets[k]; !ok {
+			order = append(order, k)
+		}
+		buckets[k] = append(buckets[k], s)
+	})
 	var specs []Spec
-	sub := enumerate(r.Thorough(), func(s Spec) { specs = append(specs, s) })
+	for i := 0; ; i++ {
+		more := false
+		for _, k := range order {
+			b := buckets[k]
+			// big buckets advance proportionally faster so that all buckets end together
+			per := 1 + len(b)/2000
+			for j := i * per; j < (i+1)*per && j < len(b); j++ {
+				specs = append(specs, b[j])
+				more = true
+			}
+		}
+		if !more {
+			break
+		}
+	}
+	buckets = nil
 	if r.Seed != 0 && len(specs) > 0 { // VERIF_SEED only rotates the order
 		k := r.Seed % len(specs)
 		if k < 0 {
